@@ -142,6 +142,21 @@ pub fn unhandled_call(what: &'static str) -> ! {
     panic!("MODEL:unhandled cross-contract call (no spec stub installed)")
 }
 
+/// `try_` client calls and `try_invoke_contract`: whether the callee fails is a symbolic choice.
+pub fn nondet_callee_failure() -> bool {
+    #[cfg(kani)]
+    {
+        kani::any()
+    }
+    #[cfg(not(kani))]
+    {
+        false
+    }
+}
+pub fn u128_be_trim(x: u128) -> [u8; 16] {
+    x.to_be_bytes()
+}
+
 // ------------------------------------------------------------------ deployer
 pub const DCAP: usize = 2;
 pub static mut DEP_N: usize = 0;
